@@ -814,6 +814,11 @@ func (eng *Engine) execStd(callee *ssa.Function, in ssa.CallInstruction, args []
 		if fv.K != KFunc || fv.Fn == nil {
 			return
 		}
+		for _, ca := range cargs {
+			if ca.K == KBot {
+				return // an element of an empty collection: the callback is never called
+			}
+		}
 		e := env.clone()
 		for i, f := range fv.Fn.FreeVars {
 			if i < len(fv.Bind) {
